@@ -219,6 +219,10 @@ type Feat struct {
 	AddlProps, Defaults, Formats, Nullable, Bounds, Docs, BoolSchema       bool
 	Subdirs, Symlink, NoExt, Pkgs, TypelessRoot, OddKeys                   bool
 	RecCombo                                                               bool // allow reference cycles through allOf/anyOf
+	Shadow                                                                 bool // two files named common.json in two directories
+	ExtShadow                                                              bool // e0f.json and e0f.yaml side by side, referenced without extension
+	PlainMarkers                                                           bool // no allOf/anyOf $ref branches (merged copies would carry markers too); every id is emitted
+	ReqCycle                                                               bool // a recursive $ref property may be required (schema no finite document satisfies)
 }
 
 func drawFeat(t *rapid.T) Feat {
@@ -257,13 +261,51 @@ func GenWorld(t *rapid.T, maxFiles int) *World { return GenWorldOpt(t, maxFiles,
 // GenWorldOpt: recCombo forces reference cycles through allOf/anyOf to be
 // possible; http allows one schema to be referenced over (simulated) HTTP.
 func GenWorldOpt(t *rapid.T, maxFiles int, recCombo, http bool) *World {
+	return genWorld(t, maxFiles, recCombo, http, false)
+}
+
+// GenWorldC10 additionally draws the discriminating layouts of C10: the same
+// relative spelling denoting two different files, and extension shadowing.
+func GenWorldC10(t *rapid.T, maxFiles int) *World { return genWorld(t, maxFiles, false, false, true) }
+
+// GenWorldMulti biases towards several files with cross-file references (C20).
+func GenWorldMulti(t *rapid.T, maxFiles int) *World {
+	multiBias = true
+	defer func() { multiBias = false }()
+	return genWorld(t, maxFiles, false, false, false)
+}
+
+var multiBias bool
+
+func genWorld(t *rapid.T, maxFiles int, recCombo, http, shadows bool) *World {
 	feat := drawFeat(t)
+	if multiBias || shadows {
+		if rapid.IntRange(0, 9).Draw(t, "f:forcefileref") < 8 {
+			feat.FileRef = true
+		}
+	}
+	feat.ReqCycle = true // only C10 worlds restrict required references
+	if shadows {
+		feat.PlainMarkers = true
+		feat.ReqCycle = rapid.IntRange(0, 99).Draw(t, "f:reqcycle") < 10
+		feat.Shadow = rapid.IntRange(0, 99).Draw(t, "f:shadow") < 40
+		feat.ExtShadow = rapid.IntRange(0, 99).Draw(t, "f:extshadow") < 30
+		if feat.Shadow {
+			feat.Subdirs = true
+		}
+		if feat.ExtShadow {
+			feat.NoExt = true
+		}
+	}
 	if recCombo {
 		feat.RecCombo, feat.LocalRef, feat.Recur = true, true, true
 		feat.AllOf = true
 	}
 	w := &World{Root: "/w", Feat: feat}
 	n := rapid.IntRange(1, maxFiles).Draw(t, "nfiles")
+	if (multiBias || shadows) && n == 1 && maxFiles >= 2 && rapid.IntRange(0, 9).Draw(t, "f:atleast2") < 8 {
+		n = 2
+	}
 	npkg := 1
 	if feat.Pkgs && feat.IDs && n > 1 {
 		npkg = rapid.IntRange(1, min(n, 3)).Draw(t, "npkg")
@@ -294,8 +336,36 @@ func GenWorldOpt(t *rapid.T, maxFiles int, recCombo, http bool) *World {
 		f.RootObj = !(feat.TypelessRoot && rapid.IntRange(0, 3).Draw(t, "typeless") == 0)
 		w.Files = append(w.Files, f)
 	}
+	if feat.Shadow {
+		if n >= 1 {
+			w.Files[0].Dir = "a"
+		}
+		if n >= 2 {
+			w.Files[1].Dir = "b"
+		}
+		for i, d := range []string{"a", "b"} {
+			tag := fmt.Sprintf("s%d", i)
+			sf := &SFile{Tag: tag, Dir: d, Base: "common.json", Defs: []string{fmt.Sprintf("S%dDa", i)}}
+			if w.Files[0].ID != "" {
+				sf.ID = "https://example.com/" + tag
+			}
+			w.Files = append(w.Files, sf)
+		}
+	}
+	if feat.ExtShadow {
+		for _, e := range []struct{ tag, ext string }{{"e0j", ".json"}, {"e0y", ".yaml"}} {
+			sf := &SFile{Tag: e.tag, Dir: "", Base: "e0f" + e.ext, YAML: e.ext == ".yaml", Defs: []string{"E0Da"}}
+			if w.Files[0].ID != "" {
+				sf.ID = "https://example.com/" + e.tag
+			}
+			w.Files = append(w.Files, sf)
+		}
+	}
 	// options
 	w.Opts = drawOptions(t, w, npkg)
+	if feat.ExtShadow {
+		w.Opts.ResolveExt = rapid.SampledFrom([][]string{{".json", ".yaml"}, {".yaml", ".json"}, {".yml", ".yaml", ".json"}, {".json", ".yml", ".yaml"}}).Draw(t, "rext2")
+	}
 	// cwd
 	w.Cwd = w.Root
 	if feat.Subdirs {
@@ -373,6 +443,15 @@ func drawOptions(t *rapid.T, w *World, npkg int) Options {
 		}
 	} else if len(w.Files) > 0 && w.Files[0].ID != "" && b("rootname", 15) {
 		o.SchemaRoot = append(o.SchemaRoot, Pair{w.Files[0].ID, "Root" + strings.ToUpper(w.Files[0].Tag)})
+		// a mapping without --schema-output means "do not emit this schema" (pinned by
+		// the crossPackageNoOutput golden); usually give the id its output as well
+		if w.Feat.PlainMarkers || !b("rootonly", 20) {
+			out := o.Output
+			if out == "" {
+				out = "-"
+			}
+			o.SchemaOut = append(o.SchemaOut, Pair{w.Files[0].ID, out})
+		}
 	}
 	return o
 }
@@ -448,8 +527,9 @@ func (g *genCtx) genMarkerObject(marker, fromDef string) Obj {
 	for i := 0; i < np; i++ {
 		name := g.newProp()
 		g.depth = 1
-		props = append(props, KV{name, g.genType()})
-		if g.pct("required", 30) {
+		pv := g.genType()
+		props = append(props, KV{name, pv})
+		if g.pct("required", 30) && g.mayRequire(pv) {
 			required = append(required, name)
 		}
 	}
@@ -467,10 +547,13 @@ func (g *genCtx) genMarkerObject(marker, fromDef string) Obj {
 			}
 			props = append(props, KV{ru.Prop, s})
 			g.f.Refs = append(g.f.Refs, ru)
-			if g.pct("reqref", 20) {
+			if g.pct("reqref", 20) && g.mayRequire(s) {
 				required = append(required, ru.Prop)
 			}
 		}
+	}
+	if fromDef == "" {
+		props = g.forcedRefs(props)
 	}
 	o := Obj{{"type", "object"}}
 	if g.feat.Docs && g.pct("desc", 40) {
@@ -509,6 +592,12 @@ func (g *genCtx) drawRef(fromDef string) (RefUse, bool) {
 		def  string
 	}
 	var ts []target
+	linked := false
+	for _, l := range g.w.Links {
+		if l.Path == filepath.Join("ln", f.Base) {
+			linked = true // reached through a symlink: relative base would be ambiguous
+		}
+	}
 	if g.feat.LocalRef {
 		for _, d := range f.Defs {
 			if d != fromDef || g.feat.Recur {
@@ -516,15 +605,12 @@ func (g *genCtx) drawRef(fromDef string) (RefUse, bool) {
 			}
 		}
 	}
-	linked := false
-	for _, l := range g.w.Links {
-		if l.Path == filepath.Join("ln", f.Base) {
-			linked = true // reached through a symlink: relative base would be ambiguous
-		}
+	if isSpecial(f) {
+		linked = true // shadow files only refer to themselves
 	}
 	if g.feat.FileRef && !linked {
 		for _, o := range g.w.Files {
-			if o == f {
+			if o == f || isSpecial(o) {
 				continue
 			}
 			// Go forbids import cycles: across packages only refer "forward"
@@ -617,6 +703,65 @@ func (g *genCtx) drawRef(fromDef string) (RefUse, bool) {
 	}
 	ru.Ref += frag
 	return ru, true
+}
+
+// mayRequire: a property that is a direct $ref is only made required in ReqCycle
+// worlds (references within a file may always be mutually recursive): a cycle of required references is a schema no
+// finite document satisfies, and the generator answers it with an invalid
+// recursive Go type (known finding KF-C10-1).
+func (g *genCtx) mayRequire(v any) bool {
+	if g.feat.ReqCycle {
+		return true
+	}
+	if o, ok := v.(Obj); ok {
+		if _, isRef := o.Get("$ref"); isRef {
+			return false
+		}
+	}
+	return true
+}
+
+// isSpecial: shadow / extension-shadow files (referenced only by forced refs).
+func isSpecial(f *SFile) bool { return strings.HasPrefix(f.Tag, "s") || strings.HasPrefix(f.Tag, "e") }
+
+// forcedRefs adds the discriminating references to the root struct of file f.
+func (g *genCtx) forcedRefs(props Obj) Obj {
+	f := g.f
+	if isSpecial(f) || !f.RootObj {
+		return props
+	}
+	add := func(ref, toTag, toDef, sp string) {
+		g.nprop++
+		ru := RefUse{FromTag: f.Tag, Prop: fmt.Sprintf("%sr%d", f.Tag, g.nprop), Ref: ref, ToTag: toTag, ToDef: toDef, Spelling: sp}
+		props = append(props, KV{ru.Prop, Obj{{"$ref", ru.Ref}}})
+		f.Refs = append(f.Refs, ru)
+	}
+	if g.feat.Shadow {
+		for i, d := range []string{"a", "b"} {
+			if f.Dir == d {
+				sp := rapid.SampledFrom([]string{"./common.json", "common.json", "file://common.json"}).Draw(g.t, "shadowsp")
+				add(fmt.Sprintf("%s#/$defs/S%dDa", sp, i), fmt.Sprintf("s%d", i), fmt.Sprintf("S%dDa", i), "shadow")
+			}
+		}
+	}
+	if g.feat.ExtShadow && f == g.w.Files[0] {
+		rel, err := filepath.Rel("/"+f.Dir, "/e0f")
+		if err == nil {
+			first := ""
+			for _, e := range g.w.Opts.ResolveExt {
+				if e == ".json" || e == ".yaml" {
+					first = e
+					break
+				}
+			}
+			to := "e0j"
+			if first == ".yaml" {
+				to = "e0y"
+			}
+			add(rel+"#/$defs/E0Da", to, "E0Da", "extshadow")
+		}
+	}
+	return props
 }
 
 // genType: a property / item schema.
@@ -822,8 +967,9 @@ func (g *genCtx) genObject() any {
 				name = g.newProp()
 			}
 		}
-		props = append(props, KV{name, g.genType()})
-		if g.pct("nreq", 30) {
+		pv := g.genType()
+		props = append(props, KV{name, pv})
+		if g.pct("nreq", 30) && g.mayRequire(pv) {
 			required = append(required, name)
 		}
 	}
@@ -849,7 +995,7 @@ func (g *genCtx) genCombo(kw string) any {
 		if g.feat.RecCombo {
 			lo = 0
 		}
-		if g.feat.LocalRef && len(g.f.Defs) > lo && g.pct("branchref", 35) {
+		if g.feat.LocalRef && !g.feat.PlainMarkers && len(g.f.Defs) > lo && g.pct("branchref", 35) {
 			d := g.f.Defs[rapid.IntRange(lo, len(g.f.Defs)-1).Draw(g.t, "branchdef")]
 			br = append(br, Obj{{"$ref", g.localFrag(d)}})
 			continue
